@@ -52,7 +52,7 @@ MUTANTS = [
     ('int', INT, 'if let Some(c) = a.checked_add(b) {\n                return StarlarkInt::Small(c);', 'if let Some(c) = a.checked_add(a) {\n                return StarlarkInt::Small(c);', 'C10.ref.add.val'),
     ('int', INT, 'StarlarkInt::from(self.to_big() - other.to_big())', 'StarlarkInt::from(other.to_big() - self.to_big())', 'C10.ref.sub.val'),
     ('int', INT, '(StarlarkIntRef::Small(a), b) => a.to_i32() * b,', '(StarlarkIntRef::Small(a), b) => a.to_i32() * self,', 'C10.ref.mul.val'),
-    ('int', INT, 'match InlineInt::try_from(&value) {\n            Ok(i) => StarlarkInt::Small(i),\n            Err(_) => StarlarkInt::Big(StarlarkBigInt::unchecked_new(value)),', 'match InlineInt::try_from(&value) {\n            Ok(i) => StarlarkInt::Small(i.checked_add(InlineInt::ZERO).unwrap_or(InlineInt::ZERO)),\n            Err(_) => StarlarkInt::Big(StarlarkBigInt::unchecked_new(value)),', None),
+    ('int', INT, 'match InlineInt::try_from(&value) {\n            Ok(i) => StarlarkInt::Small(i),\n            Err(_) => StarlarkInt::Big(StarlarkBigInt::unchecked_new(value)),', 'match InlineInt::try_from(&value) {\n            Ok(i) => StarlarkInt::Small(i.checked_add(InlineInt::ZERO).unwrap_or(InlineInt::ZERO)),\n            Err(_) => StarlarkInt::Big(StarlarkBigInt::unchecked_new(value)),', 'EQUIVALENT'),
     ('int', INT, 'match InlineInt::try_from(&value) {\n            Ok(i) => StarlarkInt::Small(i),', 'match InlineInt::try_from(&value) {\n            Ok(i) if i != 0 => StarlarkInt::Small(i),\n            Ok(_) => StarlarkInt::Big(StarlarkBigInt::unchecked_new(value)),', 'unchecked_new'),
     ('int', INL, 'if rhs >= 32 {', 'if rhs >= 33 {', 'checked_shl'),
     ('int', INL, 'self.checked_sub_i32(rhs.0)', 'self.checked_sub_i32(self.0)', 'C10.inline.checked_sub'),
@@ -139,6 +139,12 @@ MUTANTS = [
     ('compr', COMPR, '                    if let ExprCompiledBool::Const(true) = &x.node {', '                    if let ExprCompiledBool::Const(_) = &x.node {', 'C01.compr'),
     ('spans', PRD, '            let v = self.parse_test()?;\n            entries.push((k, v));\n        }\n        self.expect(&Token::ClosingCurly)?;\n        let r = self.last_end;', '            let v = self.parse_test()?;\n            entries.push((k, v));\n        }\n        let r = l + 1;\n        self.expect(&Token::ClosingCurly)?;', 'dict'),
     ('spans', PRD, '            let (for_clause, clauses) = self.parse_comp_clauses()?;\n            self.expect(&Token::ClosingCurly)?;\n            let r = self.last_end;', '            let r = self.last_end;\n            let (for_clause, clauses) = self.parse_comp_clauses()?;\n            self.expect(&Token::ClosingCurly)?;', 'dict'),
+    # negative controls: behaviour-preserving edits that must NOT be flagged
+    ('range', RNG, '        (self.start < self.stop && self.step.get() > 0)\n            || (self.start > self.stop && self.step.get() < 0)', '        (self.start > self.stop && self.step.get() < 0)\n            || (self.start < self.stop && self.step.get() > 0)', 'EQUIVALENT'),
+    ('callargs', CALLRS, 'let mut num_named = 0;', 'let mut num_named = 0;\n        let _unused = 0;', 'EQUIVALENT'),
+    ('limits', EVALRS, '        self.call_stack.pop();\n', '        self.call_stack.pop();\n        let _unused = 1;\n', 'EQUIVALENT'),
+    ('compr', COMPR, '                        // If the condition is always true, skip the clause.\n                        continue;', '                        continue;', 'EQUIVALENT'),
+    ('spans', PRD, '                let name = self.parse_assign_ident()?;\n                let ty = self.parse_optional_type()?;\n                let r = self.last_end;\n                Ok(Parameter::KwArgs(name, ty).ast(l, r))', '                let name = self.parse_assign_ident()?;\n                let ty = self.parse_optional_type()?;\n                let end = self.last_end;\n                Ok(Parameter::KwArgs(name, ty).ast(l, end))', 'EQUIVALENT'),
     ('calls', INSTR, '        eval.with_call_stack(self.to_value(), Some(location), |eval| {\n            self.invoke(args, eval)\n        })', '        self.invoke(args, eval)', 'bc_invoke'),
     ('calls', 'starlark/src/values/layout/value.rs', '        eval.with_call_stack(self, location, |eval| {\n            self.get_ref_full().invoke(args, eval)\n        })', '        self.get_ref_full().invoke(args, eval)', 'invoke_with_loc'),
     ('strindex', STRT, 'let ind = CharIndex(i.unsigned_abs() as usize);', 'let ind = CharIndex((-i) as usize);', 'at'),
@@ -192,7 +198,7 @@ def run_one(idx, m, known):
         return idx, 'undecided', other[0][:200]
     if not fails:
         return idx, 'survived', 'no obligation failed'
-    if expect and not any(expect in f for f in fails):
+    if expect and expect != 'EQUIVALENT' and not any(expect in f for f in fails):
         return idx, 'killed-elsewhere', ';'.join(fails[:3])
     return idx, 'killed', ';'.join(fails[:3])
 
@@ -217,11 +223,12 @@ def main(argv):
     bad = 0
     for idx, status, detail in res:
         m = MUTANTS[idx]
-        ok = status in ('killed', 'killed-elsewhere')
+        # a mutant with expectation 'EQUIVALENT' is a NEGATIVE control: it preserves the behaviour and must not be flagged
+        ok = (status == 'survived') if m[4] == 'EQUIVALENT' else status in ('killed', 'killed-elsewhere')
         if not ok:
             bad += 1
         print('%-16s %-8s %s :: %r -> %r   %s' % (status, m[0], m[1].split('/')[-1], m[2][:40], m[3][:40], detail[:120]))
-    print('selftest: %d mutants, %d killed, %d not killed' % (len(res), len(res) - bad, bad))
+    print('selftest: %d mutants, %d killed, %d not killed' % (len(res), len(res) - bad, bad))   # negative controls count as killed when they survive
     json.dump([{'mutant': list(MUTANTS[i][:4]), 'status': s, 'detail': d} for i, s, d in res],
               open(os.path.join(HERE, '.work', 'selftest.json'), 'w'), indent=1)
     return 0 if bad == 0 else 3
